@@ -281,6 +281,57 @@ fn absorbing(ctx: &mut Ctx) {
     }
 }
 
+/// Second, independent engine (DESIGN 1.4 / 2.10): the same transition system handed to stateright's
+/// breadth-first checker. A state carries a flag saying whether the transition that produced it agreed
+/// with the reference model; the invariant is that the flag is always true. The number of unique states
+/// must equal the number found by the explorer above.
+#[derive(Clone)]
+struct SrModel {
+    roots: Vec<(u8, i64)>,
+}
+impl stateright::Model for SrModel {
+    type State = (u8, i64, bool);
+    type Action = u8;
+    fn init_states(&self) -> Vec<Self::State> {
+        self.roots.iter().map(|(u, v)| (*u, *v, true)).collect()
+    }
+    fn actions(&self, _s: &Self::State, actions: &mut Vec<u8>) {
+        actions.extend(0..4u8);
+    }
+    fn next_state(&self, s: &Self::State, to: u8) -> Option<Self::State> {
+        let want = conv_model(s.0, to, s.1);
+        match (conv(s.0, to, s.1, false), want) {
+            (Outcome::Ok(g), Ok(Some(w))) => Some((to, g, g == w)),
+            (Outcome::Ok(g), Ok(None)) => {
+                if g == NAT {
+                    None // NaT is absorbing: no new state (the explorer does not follow it either)
+                } else {
+                    Some((to, g, false))
+                }
+            }
+            (Outcome::Ok(g), Err(())) => {
+                if g == NAT {
+                    None
+                } else {
+                    Some((to, g, false))
+                }
+            }
+            (Outcome::Panic(_), Err(())) => None,
+            (Outcome::Panic(_), _) => Some((to, s.1, false)),
+        }
+    }
+    fn properties(&self) -> Vec<stateright::Property<Self>> {
+        vec![stateright::Property::always("every unit change agrees with the reference model", |_, s: &(u8, i64, bool)| s.2)]
+    }
+}
+
+fn stateright_crosscheck(depth: usize) -> (usize, usize) {
+    use stateright::{Checker, Model};
+    let roots: Vec<(u8, i64)> = (0..4u8).flat_map(|u| lattice(u).into_iter().map(move |v| (u, v))).collect();
+    let checker = SrModel { roots }.checker().threads(1).target_max_depth(depth + 1).spawn_bfs().join();
+    (checker.unique_state_count(), checker.discoveries().len())
+}
+
 fn main() {
     let run = Run::from_args("C16");
     let depth = run.pick(2, 3);
@@ -321,11 +372,23 @@ fn main() {
         }
     }
     absorbing(&mut ctx);
+    // cross-check with the second engine
+    let explorer_states = seen.len();
+    let (sr_states, sr_discoveries) = stateright_crosscheck(depth);
+    let explorer_violations = ctx.buckets.keys().filter(|k| k.starts_with("into_unit") || k.starts_with("finer")).count();
+    println!("stateright cross-check: unique states {sr_states} (explorer {explorer_states}), discoveries {sr_discoveries}");
+    if explorer_violations == 0 && (sr_states != explorer_states || sr_discoveries != 0) {
+        ctx.error(format!("engines disagree: explorer {explorer_states} states / 0 violations, stateright {sr_states} states / {sr_discoveries} discoveries"));
+    }
+    if explorer_violations > 0 && sr_discoveries == 0 {
+        ctx.error("engines disagree: the explorer reports a unit-conversion violation that stateright does not find".into());
+    }
     ctx.sample(json!({"state": {"unit": "ms", "value": -1500}, "actions": {"into_unit<s>": format!("{:?}", conv(1, 0, -1500, false)), "model": "-2 (floor, as chrono)"}}));
     ctx.sample(json!({"state": {"unit": "ns", "value": "NaT"}, "actions": {"into_unit<us>": format!("{:?}", conv(3, 2, NAT, false)), "model": "NaT"}}));
     let meta = Meta {
         rule: "finite lattice of (unit, timestamp) states: NaT, NaT+1, i64::MAX, 0, +-1, q*r+-rho for every unit ratio r (q small and near the range limits, rho around 0, r/2 and r), the first instant of every month 1678-01..2262-03 +-1 unit; search with dedup over chains of unit conversions (into_unit and the Cast impls) up to the stated depth, every state also checked for into_opt_i64, Cast<Option<i64>>, as_cr, From<chrono>, calendar fields against chrono; plus every operator of impl_ops.rs with a NaT operand. Oracle: floor division in i128 (= chrono's timestamp of the same instant), exact multiplication when it fits (overflow: panic or NaT), NaT -> NaT / None. Non-trivial = distinct (unit, value) states.".into(),
-        bounds: json!({"units": UNITS, "root_states": n_roots, "chain_depth": depth}),
+        bounds: json!({"units": UNITS, "root_states": n_roots, "chain_depth": depth,
+            "second_engine": {"tool": "stateright 0.31 spawn_bfs, 1 thread", "unique_states": sr_states, "explorer_unique_states": explorer_states, "discoveries": sr_discoveries}}),
         assumptions: vec!["chrono is the oracle for calendar facts".into(), "conversion to a finer unit that overflows i64: panic or NaT accepted (DESIGN 5.6)".into()],
         exhaustive: true,
         min_states: 1000,
